@@ -92,18 +92,49 @@ def check_generator_events(rep, label, gen, expected_funcs, where):
     rep.check("C09.options", "%s: default options satisfy CasADi's contract" % label, not bad, "CasADi refuses these options: %s" % "; ".join(bad), where=where, fact={"options": {k: str(v) for k, v in (gen.opts or {}).items()} if isinstance(gen.opts, dict) else str(gen.opts)})
 
 
+def _dict_literal(v):
+    if not isinstance(v, ast.Dict):
+        return None
+    d = {}
+    for k, val in zip(v.keys, v.values):
+        if isinstance(k, ast.Constant) and isinstance(val, ast.Constant):
+            d[k.value] = val.value
+    return d
+
+
 def generator_defaults(w, modname, fn):
-    """Default option dict literal and accepted keys of a generate_code function, read from the AST."""
+    """Default option dict and its location, read from the AST: `p = {...}` in the function, or `p = NAME` / `dict(NAME)` /
+    `NAME.copy()` / `{**NAME}` with NAME a module-level dict literal.  ALIASED[(modname, fn)] records the case `p = NAME`
+    without a copy (the function then mutates the module-level defaults)."""
     sf = w.fe.module_file(modname)
     node = w.fe.find_def(sf.rel, fn)
+    module_dicts = {}
+    for st in sf.tree.body:
+        if isinstance(st, ast.Assign) and len(st.targets) == 1 and isinstance(st.targets[0], ast.Name):
+            d = _dict_literal(st.value)
+            if d is not None:
+                module_dicts[st.targets[0].id] = d
     for st in node.body:
-        if isinstance(st, ast.Assign) and len(st.targets) == 1 and isinstance(st.targets[0], ast.Name) and st.targets[0].id == "p" and isinstance(st.value, ast.Dict):
-            d = {}
-            for k, v in zip(st.value.keys, st.value.values):
-                if isinstance(k, ast.Constant) and isinstance(v, ast.Constant):
-                    d[k.value] = v.value
-            return d, (sf.rel, st.lineno)
+        if isinstance(st, ast.Assign) and len(st.targets) == 1 and isinstance(st.targets[0], ast.Name) and st.targets[0].id == "p":
+            v = st.value
+            d = _dict_literal(v)
+            if d is not None:
+                return d, (sf.rel, st.lineno)
+            if isinstance(v, ast.Name) and v.id in module_dicts:
+                mutated = any((isinstance(x, ast.Subscript) and isinstance(x.ctx, ast.Store) and isinstance(x.value, ast.Name) and x.value.id == "p") or
+                              (isinstance(x, ast.Call) and isinstance(x.func, ast.Attribute) and isinstance(x.func.value, ast.Name) and x.func.value.id == "p" and x.func.attr in ("update", "setdefault", "pop", "clear"))
+                              for x in ast.walk(node))
+                if mutated:
+                    ALIASED[(modname, fn)] = (v.id, (sf.rel, st.lineno))
+                return module_dicts[v.id], (sf.rel, st.lineno)
+            src = ast.unparse(v)
+            for nm, d in module_dicts.items():
+                if src in ("dict(%s)" % nm, "%s.copy()" % nm, "{**%s}" % nm, "copy.copy(%s)" % nm, "copy.deepcopy(%s)" % nm):
+                    return d, (sf.rel, st.lineno)
     return None, (sf.rel, node.lineno)
+
+
+ALIASED = {}
 
 
 def check_accepted_combinations(w, rep, modname, fn, call):
@@ -113,6 +144,10 @@ def check_accepted_combinations(w, rep, modname, fn, call):
     if d is None:
         rep.incomplete("C09.options", "%s option table" % label, "no literal option dict p = {...}", where=where)
         return
+    al = ALIASED.get((modname, fn))
+    rep.check("C09.options", "%s: the option dict modified per call is a fresh object" % label, al is None,
+              "`p = %s` binds the module-level default table itself and the function then writes the caller's keywords (and force_canonical) into it: the options of one call become "
+              "the defaults of every later call in the same process" % (al[0] if al else ""), where=al[1] if al else where)
     for k in d:
         rep.check("C09.options", "%s: option %r is a CasADi CodeGenerator option" % (label, k), k in CASADI_OPTIONS, "unknown option %r" % k, where=where)
     if "with_mem" in d:
